@@ -268,3 +268,37 @@ Proof.
   intros sh metric Hsh. split; [exact Hsh|]. intros ps cur Hne. cbn.
   apply metric_choose_in_range. exact Hne.
 Qed.
+
+(* ------------------------------------------------------------------ MetricCache is a memoiser:
+   over a metric function that does not change, with ANY eviction policy that only drops entries
+   (any capacity, LRU / FIFO / anything), every look-up returns f id. *)
+Definition mc_sound (f : N -> N) (c : mcache) : Prop := forall id m, In (id, m) c -> m = f id.
+Definition drops_only (evict : mcache -> mcache) : Prop := forall c p, In p (evict c) -> In p c.
+
+Lemma mc_lookup_In : forall id c m, mc_lookup id c = Some m -> In (id, m) c.
+Proof.
+  induction c as [|[k v] r IH]; intros m H; [discriminate|]. cbn in H.
+  destruct (N.eqb_spec k id) as [->|Hne].
+  - inversion H; subst. left. reflexivity.
+  - right. apply IH. exact H.
+Qed.
+
+Lemma memo_step_sound : forall f evict c id, mc_sound f c -> drops_only evict ->
+  fst (memo_step f evict c id) = f id /\ mc_sound f (snd (memo_step f evict c id)).
+Proof.
+  intros f evict c id Hs Hd. unfold memo_step. destruct (mc_lookup id c) as [m|] eqn:E.
+  - split; [cbn; apply Hs; apply mc_lookup_In; exact E | exact Hs].
+  - split; [reflexivity|]. cbn. intros k v [H|H].
+    + inversion H; subst. reflexivity.
+    + apply Hs. apply Hd. exact H.
+Qed.
+
+Theorem memo_run_is_f : forall f evict ids c, mc_sound f c -> drops_only evict ->
+  fst (memo_run f evict c ids) = map f ids /\ mc_sound f (snd (memo_run f evict c ids)).
+Proof.
+  intros f evict. induction ids as [|id r IH]; intros c Hs Hd; [split; [reflexivity | exact Hs]|].
+  cbn [memo_run map]. destruct (memo_step_sound f evict c id Hs Hd) as [H1 H2].
+  destruct (memo_step f evict c id) as [m c'] eqn:E1. cbn in H1, H2.
+  destruct (IH c' H2 Hd) as [H3 H4]. destruct (memo_run f evict c' r) as [ms c''] eqn:E2.
+  cbn in *. split; [rewrite H1, H3; reflexivity | exact H4].
+Qed.
